@@ -252,10 +252,24 @@ func Run(c *vk.Ctx) {
 	sortStrings(optNames)
 	c.Note(fmt.Sprintf("A: %d odd attributes x %d commands; B: %d options with value menus x %d commands; C: fake object tool menus; D: interactive grammar; E: web handlers x query menu", len(od), len(commands), len(optNames), len(commands)))
 	var idx int64
-	encode := func(mods ...odd) ([]byte, bool) {
+	encode := func(mods ...odd) (data []byte, ok bool) {
 		p := ap.Concretize(base, ap.Opts{})
-		for _, m := range mods {
-			m.f(p)
+		// two odd attributes may not be applicable together (one empties a table
+		// the other indexes): such a combination is simply not a profile of the space
+		applied := func() (fine bool) {
+			defer func() {
+				if recover() != nil {
+					fine = false
+				}
+			}()
+			for _, m := range mods {
+				m.f(p)
+			}
+			return true
+		}()
+		if !applied {
+			c.Count("odd-combination-not-applicable", 1)
+			return nil, false
 		}
 		if p.CheckValid() != nil {
 			return nil, false
